@@ -3,7 +3,7 @@
     (same answer for the same operation; malformed envelopes refused, nothing executed).
     Executable only (extracted / vm_compute). *)
 From Coq Require Import List NArith ZArith Bool String.
-From ApiFu Require Import Base.Sexp Transport.EnvelopeModel Transport.JsonText Transport.EnvelopeSpec Transport.WireModel Transport.FrameText.
+From ApiFu Require Import Base.Sexp Transport.EnvelopeModel Transport.JsonText Transport.EnvelopeSpec Transport.WireModel Transport.FrameText Transport.InitModel Transport.EnvelopeCompose.
 Import ListNotations.
 Open Scope string_scope.
 
@@ -75,7 +75,7 @@ Definition num_find (NT : ntable) (t : bytes) : option (option N) :=
   match find (fun e => bytes_eqb (fst e) t) NT with Some (_, v) => Some v | None => None end.
 Definition numval_of (NT : ntable) (t : bytes) : option N :=
   match num_find NT t with Some v => v | None => None end.
-Definition tbl_parse (fl : flavour) (NT : ntable) (t : bytes) : jparse := parse_text fl (numval_of NT) t.
+Definition tbl_parse (fl : flavour) (NT : ntable) (t : bytes) : jparse := parse_json fl (numval_of NT) t.
 
 Inductive env := EHttp (e : envelope) | EWs (p : proto) (did_init : bool) (f : option frame).
 
@@ -440,7 +440,24 @@ Definition check_sub (T : ntable) (o : op) (s : sub) : option sexp :=
   else None.
 
 (** ** same answer for the same operation *)
-Record entry := { en_name : string; en_sub : nat; en_op : op; en_obs : obs }.
+(** how PersistedQueryExtension sees the request's extensions (C18's [ext] through [pq_view]):
+    requests are grouped by operation AND this view — a persisted-query lookup is another request *)
+Definition pq_key (m : mres) : option (bool * bytes) :=
+  match m with
+  | MAccept _ x => match pq_view x with
+                   | Some e => Some (Api.PersistedQueryModel.ext_version_one e, Api.PersistedQueryModel.ext_hash e)
+                   | None => None
+                   end
+  | _ => None
+  end.
+Definition pq_key_eqb (a b : option (bool * bytes)) : bool :=
+  match a, b with
+  | None, None => true
+  | Some (v, h), Some (v', h') => Bool.eqb v v' && bytes_eqb h h'
+  | _, _ => false
+  end.
+
+Record entry := { en_name : string; en_sub : nat; en_op : op; en_pq : option (bool * bytes); en_obs : obs }.
 
 Fixpoint entries (T : ntable) (i : nat) (ss : list sub) : list entry :=
   match ss with
@@ -448,7 +465,7 @@ Fixpoint entries (T : ntable) (i : nat) (ss : list sub) : list entry :=
   | s :: r =>
       List.app
         match accepted_op (run_model T (s_env s)) with
-        | Some o => map (fun ob => {| en_name := name_of s; en_sub := i; en_op := o; en_obs := ob |}) (s_obs s)
+        | Some o => map (fun ob => {| en_name := name_of s; en_sub := i; en_op := o; en_pq := pq_key (run_model T (s_env s)); en_obs := ob |}) (s_obs s)
         | None => []
         end
         (entries T (S i) r)
@@ -462,7 +479,7 @@ Fixpoint check_same (es : list entry) : option sexp :=
   match es with
   | [] => None
   | e :: r =>
-      match first_some (fun e' => if op_eqb (en_op e) (en_op e') && negb (same_answer (en_obs e) (en_obs e'))
+      match first_some (fun e' => if op_eqb (en_op e) (en_op e') && pq_key_eqb (en_pq e) (en_pq e') && negb (same_answer (en_obs e) (en_obs e'))
                                   then Some (v_oracle_fail (differs_key e e') []) else None) r with
       | Some v => Some v
       | None => check_same r
@@ -539,6 +556,27 @@ Definition classes (T : ntable) (o : op) (is_sub : bool) (ss : list sub) : list 
     (if http_refused then ["refused-http"] else []); (if ws_refused then ["refused-ws"] else []);
     (if executed || http_refused || ws_refused then ["nontrivial"] else []) ].
 
+(** the connection_init sequence the case's socket connections went through must install the case's
+    principal: [run_inits] (InitModel) over plans — "deny" is refused by the hook, "beta" is the
+    principal with the feature, anything else one without; Features reads the plan from the context *)
+Definition k_beta : bytes := Eval vm_compute in bytes_of_string "beta".
+Definition k_deny : bytes := Eval vm_compute in bytes_of_string "deny".
+Definition plan_hook (_ : bool) (p : option bytes) : option bool :=
+  match p with
+  | Some t => if bytes_eqb t k_deny then None else Some (bytes_eqb t k_beta)
+  | None => Some false
+  end.
+Definition plan_api : api unit bool bool :=
+  {| a_schema := tt; a_features := Some (fun c => c); a_default_cost := (0, 0)%Z; a_hook := false; a_pq := false |}.
+Definition inits_install (feat : bool) (plans : list bytes) : bool :=
+  match plans with
+  | [] => false
+  | _ => match run_inits (Some plan_hook) false plan_api (false, false) (map Some plans) with
+         | Some (_, f) => Bool.eqb f feat
+         | None => false
+         end
+  end.
+
 Definition check (c : sexp) : sexp :=
   match tagged "case" c with
   | Some l =>
@@ -554,7 +592,15 @@ Definition check (c : sexp) : sexp :=
               | None => v_bad "operation-not-representable"
               | Some vars =>
                   let o := {| o_query := q'; o_vars := vars; o_opname := n' |} in
-                  if negb (canonical_complete o is_sub subs) then v_bad "missing-canonical-transport"
+                  if negb (match field "cfg" l, field "inits" l with
+                           | Some [_; ft], Some ps =>
+                               match as_bool ft, map_opt as_bytes ps with
+                               | Some ft', Some ps' => inits_install ft' ps'
+                               | _, _ => false
+                               end
+                           | _, _ => false
+                           end) then v_bad "init-sequence-does-not-install-the-principal"
+                  else if negb (canonical_complete o is_sub subs) then v_bad "missing-canonical-transport"
                   else if negb (forallb (frame_split_ok T) subs) then v_bad "frame-split-disagrees"
                   else
                     let subs := map (refit T) subs in
